@@ -55,14 +55,14 @@ def scalar_for(r, m):
 def gen_history(r, meta, n_ops):
     methods = meta["methods"]
     weights = [6 if m["name"] == "with_seed" else 3 if m["arg"] == "ref" or m["arg"] is None else 1 for m in methods]
-    h, ncfg, nuser = [["new", r.randrange(1, 9), r.randrange(1, 6)]], 1, 0
-    nref = len(meta["ref_paths"])
+    h, ncfg, users = [["new", r.randrange(1, 9), r.randrange(1, 6)]], 1, []
     for _ in range(n_ops):
         x = r.random()
         if x < 0.05:
             h.append(["new", r.randrange(1, 9), r.randrange(1, 6)]); ncfg += 1
         elif x < 0.13:
-            h.append(["alloc", r.choice(ALL_CODES), r.choice([None, None, 4, 5])]); nuser += 1
+            users.append(r.choice(ALL_CODES))
+            h.append(["alloc", users[-1], r.choice([None, None, 4, 5])])
         elif x < 0.30:
             h.append(["run", r.randrange(ncfg)])
         else:
@@ -70,16 +70,20 @@ def gen_history(r, meta, n_ops):
             src = r.choice([0, ncfg - 1, r.randrange(ncfg), r.randrange(ncfg)])
             a = None
             if m["arg"] == "ref":
+                # well-typed arguments only: a simulator where a Simulator is expected, ...
+                codes = USER_CODES.get(m["name"], ALL_CODES)
+                leafs = [p.split(".")[-1] for p in meta["ref_paths"]]
                 y = r.random()
-                if y < 0.45:   # the user passes a component another configuration holds
-                    j = r.randrange(nref) if r.random() < 0.3 else max(0, [p.split(".")[-1] for p in meta["ref_paths"]].index("_" + m["name"][5:]) if "_" + m["name"][5:] in [p.split(".")[-1] for p in meta["ref_paths"]] else 0)
-                    a = ["field", r.randrange(ncfg), j]
+                if y < 0.45 and "_" + m["name"][5:] in leafs:   # the user passes a component another configuration holds
+                    a = ["field", r.randrange(ncfg), leafs.index("_" + m["name"][5:])]
                 else:
-                    if nuser == 0 or y > 0.8:
-                        h.append(["alloc", r.choice(USER_CODES.get(m["name"], ALL_CODES)), r.choice([None, None, 4, 5])]); nuser += 1
-                        a = ["user", nuser - 1]
+                    mine = [k for k, c in enumerate(users) if c in codes]
+                    if not mine or y > 0.8:
+                        users.append(r.choice(codes))
+                        h.append(["alloc", users[-1], r.choice([None, None, 4, 5])])
+                        a = ["user", len(users) - 1]
                     else:
-                        a = ["user", r.randrange(nuser)]
+                        a = ["user", r.choice(mine)]
             h.append(["derive", src, m["name"], scalar_for(r, m), a]); ncfg += 1
     return h
 
@@ -157,9 +161,9 @@ CK_P = 2305843009213693951
 def cksum(table):
     acc = 17
     for row in table:
-        a = (acc * 31 + 1) % CK_P
+        a = (acc * 31 + 1) & CK_P
         for z in row:
-            a = (a * 1000003 + z + 7) % CK_P
+            a = (a * 8191 + z + 7) & CK_P
         acc = a
     return acc
 
@@ -233,8 +237,19 @@ def program_text(h):
 # ---------------------------------------------------------------------------------- run
 
 def run(ctx):
-    meta = generate(ctx)
-    info = ctx.coq_props()
+    tr_error = None
+    try:
+        meta = generate(ctx)
+        info = ctx.coq_props()
+    except vlib.TranslatorError as e:
+        # the tie is broken.  Still search the implementation for a concrete failing history,
+        # driving it with the interface recorded from the last translatable source.
+        tr_error = str(e)
+        meta = json.loads((ctx.dir / "fallback_meta.json").read_text())
+        meta["run_names"] = [tuple(x) for x in meta["run_names"]]
+        info = {"ok": False, "obligations": 1, "discharged": 0, "axioms": [], "log": "translator failed closed: " + tr_error,
+                "failed": "translator: " + tr_error, "theorems": [], "props_theorems": []}
+        ctx.notes.append("translator failed closed; implementation driven with props/C28/fallback_meta.json")
     r = vlib.rng(ctx.seed, "C28")
     corpus = []
     for f in sorted((ctx.dir / "corpus").glob("*.json")):
@@ -242,16 +257,16 @@ def run(ctx):
     known_methods = {m["name"] for m in meta["methods"]}
     corpus = [h for h in corpus if all(op[0] != "derive" or op[2] in known_methods for op in h)]
     syst = systematic(meta)
-    n_rand = 500 if ctx.quick else 8000
+    n_rand = 400 if ctx.quick else 6000
     rand = [gen_history(r, meta, r.randrange(3, 13)) for _ in range(n_rand)]
     hists = corpus + syst + rand
     impl = json.loads(ctx.impl("impl_emu.py", {"histories": hists, "meta": meta}))
-    bh = [gen_bhistory(r, meta["builder"], r.randrange(3, 12)) for _ in range(300 if ctx.quick else 3000)]
+    bh = [gen_bhistory(r, meta["builder"], r.randrange(3, 12)) for _ in range(300 if ctx.quick else 2000)]
     bimpl = json.loads(ctx.impl("impl_builder.py", {"histories": bh, "meta": meta["builder"]}))
 
     # ---- model side
     model = None
-    if (vlib.COQ / "C28" / "ModelHist.vo").exists() and (vlib.COQ / "C28" / "ModelHist.vo").stat().st_mtime >= (vlib.COQ / "C28" / "GenEmu.v").stat().st_mtime:
+    if tr_error is None and (vlib.COQ / "C28" / "ModelHist.vo").exists() and (vlib.COQ / "C28" / "ModelHist.vo").stat().st_mtime >= (vlib.COQ / "C28" / "GenEmu.v").stat().st_mtime:
         chunks = [hists[i:i + 400] for i in range(0, len(hists), 400)]
         try:
             outs = ctx.coq_eval_many({f"cases{i}": coq_cases(meta, c) for i, c in enumerate(chunks)})
